@@ -30,14 +30,24 @@
     theorems is discharged at every unit start by the text-termination invariants of the
     out-of-bounds proof (`OobF`, C03), so the descriptor hypotheses are those of
     `C03_no_out_of_bounds`.
-  Not proved in Lean: the same trace-level accounting for the unsolicited machine's units (its
-  closing line break follows `cr_flag`, which the command machine may change while the unit is
-  being sent) — the unit oracle of the correspondence check covers it on the implementation.
+  * `C11_unsolicited_units` (`Proofs/UnitsU.lean`): the same over any history for the unsolicited machine.
+    Its closing line break is chosen only when the text has been sent, from the `cr_flag` in force at
+    that moment (which the command machine may have changed meanwhile), so the statement has two
+    cases: while a unit's closing line break is not yet chosen, accepted bytes ++ remainder =
+    whole units ++ (opening line break ++ text of the current unit); otherwise accepted bytes ++
+    remainder = whole units.  `C11_unsolicited_units_whole`: whenever the unsolicited machine is not
+    inside a unit its accepted output is exactly a concatenation of whole units (each: line break,
+    text without NUL, line break — the two line breaks of one unit may differ).
+  Together with `C11_flush_exclusive` / `C11_writer` (only the machine in FLUSH_IO_WRITE writes, never
+  both) this is the property for both producers; what is not stated as one theorem is the merged
+  byte stream (that a unit of one machine is contiguous in it follows from the exclusion, since a
+  machine stays in FLUSH_IO_WRITE from its unit's first byte to its last: `C11_unit_step`).
 -/
 import CatVerif.Proofs.Inv
 import CatVerif.Proofs.Log
 import CatVerif.Proofs.Units
 import CatVerif.Proofs.UnitsHist
+import CatVerif.Proofs.UnitsU
 namespace Cat
 open St
 
@@ -179,6 +189,37 @@ theorem C11_command_units_whole (D : Desc) (buf ubuf : List Byte) (mem : List (L
   have h3 : outAllC (runOps ⟨D, init D buf ubuf mem⟩ ops).2 ++ remC (runOps ⟨D, init D buf ubuf mem⟩ ops).1.D (runOps ⟨D, init D buf ubuf mem⟩ ops).1.s = us.flatten := h2
   rw [e] at h3
   simpa using h3
+
+/-- **The unsolicited machine's output is a sequence of whole units**, over any history (the buffer
+handed to the unsolicited machine really being as long as declared). -/
+theorem C11_unsolicited_units (D : Desc) (buf ubuf : List Byte) (mem : List (List Byte)) (ops : List Op)
+    (hok : ∀ op ∈ ops, OpOk op) (hn : 0 < D.commandsNum) (hc : 0 < D.cap) (hd : DescOk D) (hb : D.cmdCap ≤ buf.length)
+    (hm : ∀ id, ∀ v ∈ (D.cmdD id).vars.getD [], v.dataSize ≤ (mem.getD v.slot []).length)
+    (hbu : if D.unsBuf.isSome then D.unsCap ≤ ubuf.length else D.unsBase + D.unsCap ≤ buf.length) :
+    TraceU (runOps ⟨D, init D buf ubuf mem⟩ ops).1.D (outAllU (runOps ⟨D, init D buf ubuf mem⟩ ops).2)
+      (runOps ⟨D, init D buf ubuf mem⟩ ops).1.s := by
+  have g := C11_init_good D buf ubuf mem hn hc hd hb hm
+  have gu : GoodUU ⟨D, init D buf ubuf mem⟩ :=
+    ⟨g.good, by simpa [BufOkU, init] using hbu, fun h => by simp [init] at h⟩
+  have t0 : TraceU D [] (init D buf ubuf mem) :=
+    ⟨fun o => by simp [OpenU, init] at o, fun _ => ⟨[], by simp, by simp [remU, init]⟩⟩
+  simpa using runOps_unitsU ops ⟨D, init D buf ubuf mem⟩ [] hok gu t0
+
+/-- whenever the unsolicited machine is not sending a unit, what it has emitted so far is exactly a
+concatenation of whole units -/
+theorem C11_unsolicited_units_whole (D : Desc) (buf ubuf : List Byte) (mem : List (List Byte)) (ops : List Op)
+    (hok : ∀ op ∈ ops, OpOk op) (hn : 0 < D.commandsNum) (hc : 0 < D.cap) (hd : DescOk D) (hb : D.cmdCap ≤ buf.length)
+    (hm : ∀ id, ∀ v ∈ (D.cmdD id).vars.getD [], v.dataSize ≤ (mem.getD v.slot []).length)
+    (hbu : if D.unsBuf.isSome then D.unsCap ≤ ubuf.length else D.unsBase + D.unsCap ≤ buf.length)
+    (hq : ¬ ((runOps ⟨D, init D buf ubuf mem⟩ ops).1.s.ustate = .flushWait ∨ (runOps ⟨D, init D buf ubuf mem⟩ ops).1.s.ustate = .flushWrite)) :
+    ∃ us : List (List Byte), (∀ u ∈ us, UnitShape u) ∧ outAllU (runOps ⟨D, init D buf ubuf mem⟩ ops).2 = us.flatten := by
+  have t := C11_unsolicited_units D buf ubuf mem ops hok hn hc hd hb hm hbu
+  obtain ⟨us, h1, h2⟩ := t.closed (fun o => hq o.1)
+  refine ⟨us, h1, ?_⟩
+  have e : remU (runOps ⟨D, init D buf ubuf mem⟩ ops).1.D (runOps ⟨D, init D buf ubuf mem⟩ ops).1.s = [] := by
+    simp [remU, hq]
+  rw [e] at h2
+  simpa using h2
 
 /-- non-vacuity: shapes of real units -/
 example : UnitShape [13, 10, 79, 75, 13, 10] ∧ UnitShape [10, 43, 88, 61, 53, 10] ∧ UnitShape [10, 65, 84, 43, 88, 10] :=
